@@ -558,10 +558,29 @@ def make_case(r, kind):
             "last_labelled": last_lab, "modes": modes, "desc": desc + (", last line unterminated" if unterm else "")}
 
 
+UNIVERSE = [b"n", b"n0", b"n00", b"n1", b"n01", b"n8", b"n9", b"n09", b"n009", b"n10", b"n010", b"n11", b"n011", b"n99", b"n099",
+            b"n100", b"n0100", b"n101"]
+
+
+def exhaustive_cases(maxk):
+    """every subset of up to maxk names of a small universe around the 9/10 and 99/100 boundaries with all paddings"""
+    import itertools
+    out = []
+    for k in range(1, maxk + 1):
+        for sub in itertools.combinations(UNIVERSE, k):
+            hosts = list(sub)
+            s = b"".join(h + b": x\n" for h in hosts)
+            items = [("lab", b"", h, b"", b" ", b"x") for h in hosts]
+            bodies, lines = s_bodies(items, False)
+            out.append({"stream": s, "bodies": bodies, "lines": lines, "judge": "S restated", "unterm": False, "last_labelled": True,
+                        "modes": ["coalesce"], "desc": "exhaustive subset of the boundary universe"})
+    return out
+
+
 def corpus_cases():
     out = []
     cdir = os.path.join(vlib.VERIF, "corpus", PROP)
-    if os.path.isdir(cdir):
+    if os.path.isdir(cdir) and not os.environ.get("VERIF_NO_CORPUS"):
         for fn in sorted(os.listdir(cdir)):
             if fn.endswith(".json"):
                 rec = json.load(open(os.path.join(cdir, fn)))
@@ -603,7 +622,10 @@ def run(ctx):
             R.stats["streams" if kind == "stream" else "raw_streams" if kind == "raw" else "header_sets"] += 1
             if c["unterm"] and c["last_labelled"]:
                 R.stats["unterminated_last"] += 1
-    ctx.log("%d cases (%d from corpus)" % (len(cases), ncorpus))
+    exh = exhaustive_cases(3 if quick else 5)
+    cases += exh
+    R.stats["exhaustive_subsets"] = len(exh)
+    ctx.log("%d cases (%d from corpus, %d exhaustive subsets)" % (len(cases), ncorpus, len(exh)))
     good = []
     CH = 1500
     for i in range(0, len(cases), CH):
@@ -642,7 +664,8 @@ def run(ctx):
                 "suffix after the number, digits inside prefixes, a name with and without number), bodies with empty lines, colons, leading blanks, divider look-alikes, "
                 "outputs shared between hosts (same length / prefix / permuted variants), junk lines, last line with and without newline; raw text streams for the label/body split. "
                 "Every report is judged by S restated in Python; every -c header is read back by the C host-list parser (both bracket passes) and must expand to exactly its group; "
-                "the extracted model is compared on the same cases with the script's observed hash orders as oracle.",
+                "the extracted model is compared on the same cases with the script's observed hash orders as oracle. "
+                "Exhaustive part: every subset of up to 3 (quick) / 5 (thorough) names of an 18-name universe n, n0, n00, n1, n01, n8, n9, n09, n009, n10, n010, ... n0100, n101.",
         "samples": R.samples, "input_distribution": R.stats, "corpus_cases": ncorpus, "disagreements": R.bad})
     return ctx.finish(cov, [
         "Perl's regex engine, hashes, sort and number conversion are modelled by a hand transcription (coq/Dshbak/Dshbak.v) tied to the script only by this correspondence run",
